@@ -286,4 +286,89 @@ def run(ctx):
               'when a candidate\'s second letter matches, the iterator still points at that candidate when its weekday is returned',
               'the candidate looked up by `%s` can match (`%s`) after the iterator has been advanced past it: the weekday returned is the NEXT candidate\'s '
               '("su" decodes to Saturday, "tu" to Thursday)' % (bad[0].text() if bad else '', bad[1].text() if bad else ''))
+    # ---------------- R24.6 the offset travels with the schedule: every user-written copy constructor / copy assignment of Schedule carries each data member
+    # (the login schedule reaches the session by assignment; a member left behind keeps the target's old value, e.g. offset 0)
+    recs = [r for t in prog.tus for r in t.records if r.get('q') == 'FIX8::Schedule']
+    ctx.need(recs, 'struct FIX8::Schedule not found')
+    fields = [x['n'] for x in recs[0]['fields']]
+    ctx.need('_toffset' in fields and len(fields) >= 7, 'Schedule: expected the seven data members incl. _toffset, found %s' % fields)
+    n_copy = 0
+    seen_c = set()
+    for g in prog.all_functions():
+        if g.rec != 'FIX8::Schedule' or len(g.param_ids) != 1 or g.loc in seen_c:
+            continue
+        pt = g.tu.types[g.params[0]['t']]
+        if pt.get('k') != 'ref' or g.tu.types[pt['pointee']].get('rec') != 'FIX8::Schedule':
+            continue
+        is_ctor = g.kind == 'ctor'
+        is_asg = (g.q or '').startswith('FIX8::Schedule::operator=')
+        if not (is_ctor or is_asg) or g.raw.get('defaulted') or 'cfg' not in g.raw:
+            continue
+        seen_c.add(g.loc)
+        ctx.saw(g)
+        n_copy += 1
+        src = g.param_ids[0]
+        covered = set()
+        for (m, e, it) in g.inits:
+            if m is not None and any(x.k == 'MemberExpr' and x.decl['n'] == m['n'] and any(q.refers_to_decl(y, src) for y in x.walk() if y.k == 'DeclRefExpr') for x in e.walk()):
+                covered.add(m['n'])
+        for fl in fields:
+            for (w, mm) in q.member_writes(g, 'FIX8::Schedule::' + fl):
+                rhs = w.children[1] if w.k == 'BinaryOperator' else (w.args[-1] if w.args else None)
+                if rhs is not None and any(x.k == 'MemberExpr' and x.decl['n'] == fl and any(q.refers_to_decl(y, src) for y in x.walk() if y.k == 'DeclRefExpr') for x in rhs.walk()):
+                    covered.add(fl)
+        missing = [x for x in fields if x not in covered]
+        ctx.check(not missing, 'R24.6', 'FIX8::Schedule::%s#carries-every-member' % ('copy-ctor' if is_ctor else 'operator='), g.loc,
+                  'the %s takes each of %s from its argument' % ('copy constructor' if is_ctor else 'copy assignment', fields),
+                  'the %s of Schedule does not carry %s: a schedule that reaches its user this way (the <login> schedule is assigned) keeps the target\'s old value — '
+                  'with _toffset left at 0 every window of a non-UTC configuration is tested against UTC' % ('copy constructor' if is_ctor else 'copy assignment', missing))
+    if n_copy == 0:
+        ctx.ok('R24.6', 'FIX8::Schedule#carries-every-member', 'include/fix8/session.hpp:%d' % recs[0].get('l', 0), 'Schedule has no user-written copy operations (the implicit ones copy every member)')
+    # the derived offset is the configured minutes times one minute of ticks, wherever a constructor takes the minutes
+    for g in prog.all_functions():
+        if g.rec == 'FIX8::Schedule' and g.kind == 'ctor' and len(g.param_ids) >= 4 and g.loc not in seen_c:
+            seen_c.add(g.loc)
+            es = [e for (m, e, it) in g.inits if m is not None and m['n'] == '_toffset']
+            ctx.need(len(es) == 1, 'Schedule(start, end, ...): _toffset initialiser not found')
+            muls = [x for x in es[0].walk() if x.k == 'BinaryOperator' and x.op == '*']
+            okm = len(muls) == 1 and any(x.k == 'MemberExpr' and x.decl['n'] == '_utc_offset' or (x.k == 'DeclRefExpr' and x.decl.get('n') == 'utc_offset') for x in muls[0].walk()) and \
+                any(x.k == 'DeclRefExpr' and x.decl.get('n') == 'minute' for x in muls[0].walk())
+            ctx.check(okm, 'R24.6', 'FIX8::Schedule::Schedule#offset-derived', g.loc, '_toffset = utc offset in minutes x Tickval::minute')
+    # ---------------- R24.7 Tickval::adjust(by) moves the value by exactly `by`, for either sign (Schedule::test hands it the offset; west of Greenwich it is negative)
+    adjf = prog.fn1('FIX8::Tickval::adjust')
+    ctx.saw(adjf)
+    rets_a = [n for n in adjf.all_nodes() if n.k == 'ReturnStmt' and n.children]
+    ctx.need(len(rets_a) == 1, 'Tickval::adjust: single return expected')
+    byp = adjf.param_ids[0]
+
+    def delta(n, v):
+        s_ = n.strip(casts=True)
+        if s_.k == 'ConditionalOperator':
+            c_ = q.eval_int(s_.child('cond'), {byp: v})
+            if c_ is None:
+                return None
+            return delta(s_.child('then') if c_ else s_.child('else'), v)
+        if (s_.k == 'CXXOperatorCallExpr' and s_.r.get('op') in ('+=', '-=')) or (s_.k == 'CompoundAssignOperator' and s_.op in ('+=', '-=')):
+            a_ = s_.args if s_.k == 'CXXOperatorCallExpr' else s_.children
+            if len(a_) != 2 or not any(x.k == 'CXXThisExpr' for x in a_[0].walk()):
+                return None
+            r_ = q.eval_int(a_[1], {byp: v})
+            if r_ is None:
+                return None
+            return r_ if (s_.r.get('op') or s_.op) == '+=' else -r_
+        return None
+    consts = {x.value for x in rets_a[0].walk() if x.value is not None and x.k != 'DeclRefExpr'}
+    pts = {-36000000000000, -1, 0, 1, 36000000000000} | {c + d for c in consts if isinstance(c, int) for d in (-1, 0, 1)}
+    bad = None
+    for v in sorted(pts):
+        dv = delta(rets_a[0].children[0], v)
+        if dv is None:
+            raise AnalysisBroken('Tickval::adjust: `%s` is not a +=/-= of the argument on *this (by = %d)' % (rets_a[0].children[0].text(), v))
+        if dv != v:
+            bad = (v, dv)
+            break
+    ctx.check(bad is None, 'R24.7', 'FIX8::Tickval::adjust#moves-by-argument', adjf.loc, 'adjust(by) changes the value by exactly by, at every critical point of `%s`' % rets_a[0].children[0].text(),
+              ('adjust(%d) moves the value by %d (`%s`): a negative utc offset is applied with the wrong sign, windows open and close 2 x |offset| off' % (bad[0], bad[1], rets_a[0].children[0].text())) if bad else None)
+    ctx.floor('R24.6', 2)
+    ctx.floor('R24.7', 1)
     ctx.floor('R24.1', 4)
